@@ -234,17 +234,29 @@ pub struct Fiber {
   pub error: Option<InstRef>,
   /// ghost: the fiber was told that an error occurred while it was handling one
   pub error_in_handler: Ghost<bool>,
+  /// the call frames (function, argument count), innermost last
+  pub frames: Vec<Frame>,
 }
+
+#[derive(Clone, Copy, PartialEq, Eq, Structural)]
+pub struct FunRef { pub p: usize }          // ObjRef<Fun>
+#[derive(Clone, Copy, PartialEq, Eq, Structural)]
+pub struct CapturesRef { pub p: usize }     // Captures
+#[derive(Clone, Copy, PartialEq, Eq, Structural)]
+pub struct Frame { pub fun: FunRef, pub captures: CapturesRef, pub arg_count: u8 }
 
 /// frame of the stack operations: nothing but the operand stack changes
 pub open spec fn only_stack(o: &Fiber, n: &Fiber) -> bool {
   n.state == o.state && n.me == o.me && n.pool == o.pool && n.used == o.used && n.handlers == o.handlers && n.error == o.error && n.error_in_handler == o.error_in_handler
+    && n.frames == o.frames
 }
 
 /// frame of the channel / scheduling operations: handlers and the in-flight error are untouched
-pub open spec fn only_chan(o: &Fiber, n: &Fiber) -> bool { n.handlers == o.handlers && n.error == o.error && n.error_in_handler == o.error_in_handler }
+pub open spec fn only_chan(o: &Fiber, n: &Fiber) -> bool { n.handlers == o.handlers && n.error == o.error && n.error_in_handler == o.error_in_handler && n.frames == o.frames }
 
 impl Fiber {
+  pub fn frames(&self) -> (r: &Vec<Frame>) ensures r == &self.frames { &self.frames }
+
   pub fn error(&self) -> (r: Option<InstRef>) ensures r == self.error { self.error }
 
   /// real: asserts that a handler is active, then pops it
@@ -253,7 +265,7 @@ impl Fiber {
     requires old(self).handlers@.len() > 0
     ensures final(self).handlers@ == old(self).handlers@.drop_last(), final(self).stack == old(self).stack, final(self).state == old(self).state,
             final(self).me == old(self).me, final(self).pool == old(self).pool, final(self).used == old(self).used, final(self).error == old(self).error,
-            final(self).error_in_handler == old(self).error_in_handler
+            final(self).error_in_handler == old(self).error_in_handler, final(self).frames == old(self).frames
   { }
 
   /// R9: `let mut fiber = self.fiber; fiber.push_exception_handler(self, offset, slot_depth)` (root context dropped)
@@ -262,13 +274,13 @@ impl Fiber {
     ensures final(self).handlers@ == old(self).handlers@.push(Handler { offset: offset as int, depth: slot_depth as int }),
             final(self).stack == old(self).stack, final(self).state == old(self).state,
             final(self).me == old(self).me, final(self).pool == old(self).pool, final(self).used == old(self).used, final(self).error == old(self).error,
-            final(self).error_in_handler == old(self).error_in_handler
+            final(self).error_in_handler == old(self).error_in_handler, final(self).frames == old(self).frames
   { }
 
   #[verifier::external_body]
   pub fn error_while_handling(&mut self)
     ensures final(self).error_in_handler@, final(self).stack == old(self).stack, final(self).state == old(self).state, final(self).handlers == old(self).handlers,
-            final(self).me == old(self).me, final(self).pool == old(self).pool, final(self).used == old(self).used, final(self).error == old(self).error
+            final(self).me == old(self).me, final(self).pool == old(self).pool, final(self).used == old(self).used, final(self).error == old(self).error, final(self).frames == old(self).frames
   { }
 
   pub fn push(&mut self, value: Value)
@@ -365,6 +377,13 @@ pub broadcast axiom fn axiom_chan_value(v: Value)
   ensures #[trigger] from_chan(o_chan(v_obj(v))) == v,
 ;
 
+#[derive(Clone, Copy, PartialEq, Eq, Structural)]
+pub struct ClosureRef { pub p: usize }     // ObjRef<Closure>
+#[derive(Clone, Copy, PartialEq, Eq, Structural)]
+pub struct NativeRef { pub p: usize }      // ObjRef<Native>
+/// which leaf the call dispatcher handed a call to
+pub enum Dispatched { Closure(ClosureRef, u8), Method(MethodRef, u8), Native(NativeRef, u8), Class(ClassRef, u8) }
+
 // ---- the interpreter (projection of laythe_vm::vm::Vm to what the covered handlers touch) ------------------------
 pub struct Errors { pub runtime: ClassRef, pub type_: ClassRef, pub value: ClassRef, pub property: ClassRef, pub error: ClassRef }
 pub struct BuiltIn { pub errors: Errors }
@@ -386,6 +405,10 @@ pub struct Vm {
   pub heap: Ghost<Map<(InstRef, int), Value>>,
   /// ghost: the call this handler handed to resolve_call: (callee, argument count, operand stack at that moment)
   pub called: Ghost<Option<(Value, u8, Seq<Value>)>>,
+  /// ghost (calls unit): leaf calls made by the real resolve_call, in order
+  pub call_log: Ghost<Seq<Dispatched>>,
+  /// the placeholder captures of functions without captures
+  pub capture_stub: CapturesRef,
 }
 
 pub uninterp spec fn code_u8(ip: int) -> u8;
@@ -397,19 +420,19 @@ impl Vm {
   #[verifier::external_body]
   pub fn read_byte(&mut self) -> (r: u8)
     ensures r == code_u8(old(self).ip@), final(self).ip@ == old(self).ip@ + 1,
-            final(self).fiber == old(self).fiber, final(self).raised == old(self).raised, final(self).constants == old(self).constants, final(self).builtin == old(self).builtin, final(self).queued == old(self).queued, final(self).cache == old(self).cache, final(self).heap == old(self).heap, final(self).called == old(self).called
+            final(self).fiber == old(self).fiber, final(self).raised == old(self).raised, final(self).constants == old(self).constants, final(self).builtin == old(self).builtin, final(self).queued == old(self).queued, final(self).cache == old(self).cache, final(self).heap == old(self).heap, final(self).called == old(self).called, final(self).call_log == old(self).call_log, final(self).capture_stub == old(self).capture_stub
   { 0 }
 
   #[verifier::external_body]
   pub fn read_short(&mut self) -> (r: u16)
     ensures r == code_u16(old(self).ip@), final(self).ip@ == old(self).ip@ + 2,
-            final(self).fiber == old(self).fiber, final(self).raised == old(self).raised, final(self).constants == old(self).constants, final(self).builtin == old(self).builtin, final(self).queued == old(self).queued, final(self).cache == old(self).cache, final(self).heap == old(self).heap, final(self).called == old(self).called
+            final(self).fiber == old(self).fiber, final(self).raised == old(self).raised, final(self).constants == old(self).constants, final(self).builtin == old(self).builtin, final(self).queued == old(self).queued, final(self).cache == old(self).cache, final(self).heap == old(self).heap, final(self).called == old(self).called, final(self).call_log == old(self).call_log, final(self).capture_stub == old(self).capture_stub
   { 0 }
 
   #[verifier::external_body]
   pub fn update_ip(&mut self, offset: isize)
     ensures final(self).ip@ == old(self).ip@ + offset,
-            final(self).fiber == old(self).fiber, final(self).raised == old(self).raised, final(self).constants == old(self).constants, final(self).builtin == old(self).builtin, final(self).queued == old(self).queued, final(self).cache == old(self).cache, final(self).heap == old(self).heap, final(self).called == old(self).called
+            final(self).fiber == old(self).fiber, final(self).raised == old(self).raised, final(self).constants == old(self).constants, final(self).builtin == old(self).builtin, final(self).queued == old(self).queued, final(self).cache == old(self).cache, final(self).heap == old(self).heap, final(self).called == old(self).called, final(self).call_log == old(self).call_log, final(self).capture_stub == old(self).capture_stub
   { }
 
   /// real: get_constant_unchecked — the index is trusted (C06 O-06.9, not decided)
@@ -425,15 +448,15 @@ impl Vm {
     ensures r == ExecutionSignal::RuntimeError, final(self).raised@ == Some(error), final(self).ip == old(self).ip,
             final(self).fiber.used == old(self).fiber.used, final(self).fiber.pool == old(self).fiber.pool,
             final(self).fiber.handlers == old(self).fiber.handlers, final(self).fiber.error_in_handler == old(self).fiber.error_in_handler,
-            final(self).cache == old(self).cache, final(self).heap == old(self).heap, final(self).called == old(self).called,
-            final(self).constants == old(self).constants, final(self).builtin == old(self).builtin, final(self).queued == old(self).queued, final(self).cache == old(self).cache, final(self).heap == old(self).heap, final(self).called == old(self).called
+            final(self).cache == old(self).cache, final(self).heap == old(self).heap, final(self).called == old(self).called, final(self).call_log == old(self).call_log, final(self).capture_stub == old(self).capture_stub, final(self).fiber.frames == old(self).fiber.frames,
+            final(self).constants == old(self).constants, final(self).builtin == old(self).builtin, final(self).queued == old(self).queued, final(self).cache == old(self).cache, final(self).heap == old(self).heap, final(self).called == old(self).called, final(self).call_log == old(self).call_log, final(self).capture_stub == old(self).capture_stub
   { ExecutionSignal::RuntimeError }
 
   /// the 4-byte inline cache slot operand
   #[verifier::external_body]
   pub fn read_slot(&mut self) -> (r: u32)
     ensures r == code_u32(old(self).ip@), final(self).ip@ == old(self).ip@ + 4,
-            final(self).fiber == old(self).fiber, final(self).raised == old(self).raised, final(self).constants == old(self).constants, final(self).builtin == old(self).builtin, final(self).queued == old(self).queued, final(self).cache == old(self).cache, final(self).heap == old(self).heap, final(self).called == old(self).called
+            final(self).fiber == old(self).fiber, final(self).raised == old(self).raised, final(self).constants == old(self).constants, final(self).builtin == old(self).builtin, final(self).queued == old(self).queued, final(self).cache == old(self).cache, final(self).heap == old(self).heap, final(self).called == old(self).called, final(self).call_log == old(self).call_log, final(self).capture_stub == old(self).capture_stub
   { 0 }
 
   /// the string constant at `index` (real: read_constant(index).to_obj().to_str(), unchecked)
@@ -456,7 +479,7 @@ impl Vm {
   pub fn heap_set(&mut self, instance: InstRef, slot: usize, value: Value)
     ensures final(self).heap@ == old(self).heap@.insert((instance, slot as int), value),
             final(self).fiber == old(self).fiber, final(self).ip == old(self).ip, final(self).raised == old(self).raised, final(self).constants == old(self).constants,
-            final(self).builtin == old(self).builtin, final(self).queued == old(self).queued, final(self).cache == old(self).cache, final(self).called == old(self).called
+            final(self).builtin == old(self).builtin, final(self).queued == old(self).queued, final(self).cache == old(self).cache, final(self).called == old(self).called, final(self).call_log == old(self).call_log, final(self).capture_stub == old(self).capture_stub
   { }
 
   /// R9: `instance.get_field(name)` = `class().get_field_index(&name).map(|i| &self[i])` (laythe_core instance/mod.rs)
@@ -470,23 +493,15 @@ impl Vm {
   pub fn manage_obj(&mut self, m: Method) -> (r: MethodRef)
     ensures m_receiver(r) == m.receiver, m_method(r) == m.method,
             final(self).fiber == old(self).fiber, final(self).ip == old(self).ip, final(self).raised == old(self).raised, final(self).constants == old(self).constants,
-            final(self).builtin == old(self).builtin, final(self).queued == old(self).queued, final(self).cache == old(self).cache, final(self).heap == old(self).heap, final(self).called == old(self).called
+            final(self).builtin == old(self).builtin, final(self).queued == old(self).queued, final(self).cache == old(self).cache, final(self).heap == old(self).heap, final(self).called == old(self).called, final(self).call_log == old(self).call_log, final(self).capture_stub == old(self).capture_stub
   { MethodRef { p: 0 } }
-
-  /// dispatch a call on `callee` with `arg_count` arguments on the stack (its own contract: stage E / C16)
-  #[verifier::external_body]
-  pub fn resolve_call(&mut self, callee: Value, arg_count: u8) -> (r: ExecutionSignal)
-    ensures final(self).called@ == Some((callee, arg_count, old(self).fiber.stack@)),
-            final(self).cache == old(self).cache, final(self).heap == old(self).heap, final(self).raised == old(self).raised,
-            final(self).constants == old(self).constants, final(self).builtin == old(self).builtin
-  { ExecutionSignal::Ok }
 
   /// make `error` the fiber's in-flight error and start unwinding
   #[verifier::external_body]
   pub fn set_error(&mut self, error: InstRef) -> (r: ExecutionSignal)
     ensures r == ExecutionSignal::RuntimeError, final(self).fiber.error == Some(error), final(self).raised == old(self).raised, final(self).ip == old(self).ip,
             final(self).fiber.handlers == old(self).fiber.handlers, final(self).constants == old(self).constants, final(self).builtin == old(self).builtin,
-            final(self).cache == old(self).cache, final(self).heap == old(self).heap, final(self).called == old(self).called
+            final(self).cache == old(self).cache, final(self).heap == old(self).heap, final(self).called == old(self).called, final(self).call_log == old(self).call_log, final(self).capture_stub == old(self).capture_stub
   { ExecutionSignal::RuntimeError }
 
   /// R9: `self.ip.offset_from(&instructions()[0])` — the byte offset of ip inside the current function
@@ -499,14 +514,14 @@ impl Vm {
   /// interning allocation of a string buffer
   #[verifier::external_body]
   pub fn manage_str(&mut self, buffer: StrBuf) -> (r: LyStr)
-    ensures r == buffer.content(), final(self).fiber == old(self).fiber, final(self).ip == old(self).ip, final(self).raised == old(self).raised, final(self).cache == old(self).cache, final(self).heap == old(self).heap, final(self).called == old(self).called, final(self).queued == old(self).queued,
-            final(self).constants == old(self).constants, final(self).builtin == old(self).builtin, final(self).queued == old(self).queued, final(self).cache == old(self).cache, final(self).heap == old(self).heap, final(self).called == old(self).called
+    ensures r == buffer.content(), final(self).fiber == old(self).fiber, final(self).ip == old(self).ip, final(self).raised == old(self).raised, final(self).cache == old(self).cache, final(self).heap == old(self).heap, final(self).called == old(self).called, final(self).call_log == old(self).call_log, final(self).capture_stub == old(self).capture_stub, final(self).queued == old(self).queued,
+            final(self).constants == old(self).constants, final(self).builtin == old(self).builtin, final(self).queued == old(self).queued, final(self).cache == old(self).cache, final(self).heap == old(self).heap, final(self).called == old(self).called, final(self).call_log == old(self).call_log, final(self).capture_stub == old(self).capture_stub
   { LyStr { p: 0 } }
 
   /// real: unblocks the waiter's fiber and appends it to the run queue
   #[verifier::external_body]
   pub fn queue_blocked_fiber(&mut self, waiter: WaiterRef)
-    ensures final(self).queued@ == old(self).queued@.push(waiter), final(self).fiber == old(self).fiber, final(self).ip == old(self).ip, final(self).raised == old(self).raised, final(self).cache == old(self).cache, final(self).heap == old(self).heap, final(self).called == old(self).called,
+    ensures final(self).queued@ == old(self).queued@.push(waiter), final(self).fiber == old(self).fiber, final(self).ip == old(self).ip, final(self).raised == old(self).raised, final(self).cache == old(self).cache, final(self).heap == old(self).heap, final(self).called == old(self).called, final(self).call_log == old(self).call_log, final(self).capture_stub == old(self).capture_stub,
             final(self).constants == old(self).constants, final(self).builtin == old(self).builtin
   { }
 
